@@ -573,6 +573,12 @@ size_t ZSTD_seekable_decompress(ZSTD_seekable* zs, void* dst, size_t len, unsign
                     return ERROR(corruption_detected);
                 }
 
+                if (zs->decompressedOffset < frameEnd) {
+                    /* the frame ended before the end position the seek table gives for it : table and frame disagree,
+                     * whether or not this read wanted more (the decoder now sits at the start of the next zstd frame) */
+                    zs->curFrame = (U32) -1;
+                    return ERROR(corruption_detected);
+                }
                 if (zs->decompressedOffset < offset + len) {
                     /* go back to the start and force a reset of the stream */
                     targetFrame = ZSTD_seekable_offsetToFrameIndex(zs, zs->decompressedOffset);
